@@ -317,6 +317,9 @@ func TestVerifC08(t *testing.T) {
 	add(c08Scenario{Name: "late joiner: 1 old + 1 new message parked, key concurrent", Senders: 1, Msgs: 2, Arrivals: [][]string{{"s0/1", "s0/2"}}, KeyBefore: []bool{false}, Window: 4, AnnAfter: 1})
 	add(c08Scenario{Name: "late joiner: new message first, then the old one, key concurrent", Senders: 1, Msgs: 2, Arrivals: [][]string{{"s0/2", "s0/1"}}, KeyBefore: []bool{false}, Window: 4, AnnAfter: 1})
 	add(c08Scenario{Name: "late joiner: 1 old + 1 new message, key before", Senders: 1, Msgs: 2, Arrivals: [][]string{{"s0/1", "s0/2"}}, KeyBefore: []bool{true}, Window: 4, AnnAfter: 1})
+	// the retry after a success must reach every parked message, not only the oldest: message 1 can never be opened,
+	// message 3 is beyond the window of one key until message 2 has been opened
+	add(c08Scenario{Name: "late joiner, window of 1: old message and a message beyond the window parked, key before", Senders: 1, Msgs: 3, Arrivals: [][]string{{"s0/1", "s0/3", "s0/2"}}, KeyBefore: []bool{true}, Window: 1, AnnAfter: 1})
 	// a long history before the announcement: 40 messages that can never be opened here are parked in front of the
 	// two that can (more than any batch limit a flush of the per-device cache might have)
 	{
